@@ -13,7 +13,7 @@ RULE = ("(A) token-level: 1-3 mutations (delete, duplicate, swap adjacent / dist
         "whitespace-separated; (B) character-level: delete / insert / transpose / replace single characters of rendered "
         "text and of the 13 repository programs; (C, thorough) atheris coverage-guided fuzzing of raw text. Oracle: an "
         "independent lexer + Earley recogniser of the documented grammar; reject => ExperimentEvaluator(text) must raise "
-        "and parse_source(text) must raise or return None. Accepted mutants are only counted (C07's business), ambiguous "
+        "and parse_source(text) must raise or return None, and recompile(text) on a live evaluator holding the unmutated original must raise too. Accepted mutants are only counted (C07's business), ambiguous "
         "ones (single word elseif, unterminated / nested block comment, keyword-prefix readings that disagree) are skipped "
         "and counted - but still compiled, after which (and after every rejected text containing /*) fixed invalid canaries such as "
         "'junk */ def e {...}' must still be rejected (compiling is stateless). Non-trivial = mutated text rejected by the reference; distinct by text.")
@@ -39,7 +39,7 @@ def token_cases(draw):
     a = draw(gen.programs(max_depth=2, max_groups=3))["prog"]
     b = draw(gen.programs(max_depth=1, max_groups=2))["prog"]
     toks, kinds = draw(gen_text.mutate_tokens(M.program_tokens(a), M.program_tokens(b)))
-    return {"text": M.tokens_text(toks), "kinds": kinds, "level": "token"}
+    return {"text": M.tokens_text(toks), "kinds": kinds, "level": "token", "base": M.render(a)}
 
 
 @st.composite
@@ -50,7 +50,7 @@ def char_cases(draw, repo_programs):
         prog = draw(gen.programs(max_depth=2, max_groups=3))["prog"]
         base, _ = draw(gen_text.trivia_variant(M.program_tokens(prog), draw(st.sampled_from(["min", "random", "lines"]))))
     text, kinds = draw(gen_text.mutate_chars(base))
-    return {"text": text, "kinds": kinds, "level": "char"}
+    return {"text": text, "kinds": kinds, "level": "char", "base": base}
 
 
 def judge(case):
@@ -73,6 +73,17 @@ def judge(case):
             viol.append("parse_source returned an experiment (%s) for text outside the grammar | %r" % (getattr(ast, "id", "?"), text))
     except Exception:
         pass
+    base = case.get("base")
+    if base and not viol:
+        # the same text must also be refused by recompile() on a live evaluator that holds the unmutated original
+        rb = sut.compile_text(base)
+        if rb[0] == "ok":
+            tags.append("recompile-on-live-evaluator")
+            try:
+                rb[1].recompile(text)
+                viol.append("recompile() accepted text outside the grammar without raising (evaluator held %r) | %r" % (base, text))
+            except Exception:
+                pass
     if "/*" in text:
         viol += _canaries(text)
     return {"viol": viol, "nontrivial": True, "tags": tags, "key": text, "sample": {"text": text[:300], "mutations": case.get("kinds")}}
